@@ -76,6 +76,14 @@ func corporaFor(prop, tier string) []*Case {
 		add(sample(CorpusTypes(seed, tier), 3))
 		add(CorpusRandomGeneric(seed, tier))
 		add(CorpusRandomMulti(seed, tier))
+		// several interfaces whose names and imports interact: every formatter sees the same program
+		for i, c := range CorpusMulti(seed, tier) {
+			if tier == "thorough" || i%3 == int(seed)%3 {
+				d := *c
+				d.RunFmts, d.Judge, d.Solo = true, []string{"C16"}, false
+				cs = append(cs, &d)
+			}
+		}
 	case "C20":
 		add(CorpusRandomMulti(seed, tier))
 		add(CorpusRaw(seed, tier))
@@ -179,7 +187,7 @@ func EvaluateCases(prop, tag string, cases []*Case, sc *core.Scratch, ev *core.E
 		dropped := 0
 		for _, c := range cases {
 			p := preds[c.ID]
-			if c.DropKF && p != nil && (p.Crash || p.NameDup || p.FieldDup || p.Dup || p.Diverge || p.LateCapture || shadowsTParam(c, p)) {
+			if c.DropKF && p != nil && (p.Crash || p.NameDup || p.FieldDup || p.Dup || p.Diverge || p.LateCapture || p.BadQual || shadowsTParam(c, p)) {
 				dropped++
 				continue
 			}
@@ -211,7 +219,7 @@ func EvaluateCases(prop, tag string, cases []*Case, sc *core.Scratch, ev *core.E
 			accepted++
 		case "error":
 			rejected++
-			if !strings.HasPrefix(c.Origin, "args:") && !strings.HasPrefix(c.Origin, "writer:") && !strings.HasPrefix(c.Origin, "probe:") {
+			if !strings.HasPrefix(c.Origin, "args:") && !strings.HasPrefix(c.Origin, "writer:") && !strings.HasPrefix(c.Origin, "probe:") && !strings.HasPrefix(c.Origin, "imports:exotic-alias") {
 				// a corpus element moq refuses is not judged at all: say so loudly
 				rep.DriftNote(fmt.Sprintf("moq rejects corpus element %s (%s): its content is not judged in this run", c.Origin, firstLines(c.Obs.Err, 1)))
 			}
@@ -222,13 +230,13 @@ func EvaluateCases(prop, tag string, cases []*Case, sc *core.Scratch, ev *core.E
 		if c.NoPredict {
 			p = nil
 		}
-		if p != nil && c.Obs.Exit == "ok" && !p.Diverge && p.NFinals > 0 && !matchesPrediction(p, c.Obs) {
+		if p != nil && c.Obs.Exit == "ok" && c.Obs.ParseOK && !p.Diverge && p.NFinals > 0 && !matchesPrediction(p, c.Obs) {
 			drift++
 			if drift <= 3 {
 				rep.DriftNote(fmt.Sprintf("Registry model predicts qualifiers %v, moq chose %v (%s)", p.Finals, quals(c.Obs), c.Origin))
 			}
 		}
-		if p != nil && c.Obs.Exit == "ok" && !p.Crash && !namesMatch(p, c.Obs) {
+		if p != nil && c.Obs.Exit == "ok" && c.Obs.ParseOK && !p.Crash && !namesMatch(p, c.Obs) {
 			drift++
 			if drift <= 3 {
 				var got []string
@@ -350,6 +358,8 @@ func shapeMatches(match string, c *Case, p *Prediction) bool {
 		return p != nil && p.FieldDup
 	case "scope:late-alias-capture":
 		return p != nil && p.LateCapture
+	case "registry:bad-alias":
+		return p != nil && p.BadQual
 	case "dest:explicitSame+srcTypes":
 		return c.Cfg.Dest == "explicitSame" && mentionsSrc(c)
 	}
@@ -504,10 +514,10 @@ func designLevel(sc *core.Scratch, ev *core.Evidence, rep *core.Reporter) error 
 	if len(l) != 1 {
 		return core.Infra("GenMC printed no summary:\n%s", core.Tail(res.Output, 20))
 	}
-	var n, div, dup, nonconf int
-	fmt.Sscan(l[0], &n, &div, &dup, &nonconf)
-	ev.AddTLC("GenMC (design level: ordered selections of up to 3 of 12 adversarial packages)", res)
-	ev.Set("design_level_registry", map[string]int{"inputs": n, "diverge": div, "duplicate_qualifier": dup, "outcome_depends_on_map_order": nonconf})
+	var n, div, dup, nonconf, bad int
+	fmt.Sscan(l[0], &n, &div, &dup, &nonconf, &bad)
+	ev.AddTLC("GenMC (design level: ordered selections of up to 3 of 15 adversarial packages)", res)
+	ev.Set("design_level_registry", map[string]int{"inputs": n, "diverge": div, "duplicate_qualifier": dup, "outcome_depends_on_map_order": nonconf, "unusable_alias": bad})
 	if res.Violated || nonconf > 0 {
 		rep.DriftNote(fmt.Sprintf("design level: the Registry model is not confluent for %d of %d inputs (candidate for C14; the verdict comes from repeated real generations)", nonconf, n))
 	}
